@@ -76,24 +76,27 @@ type lbEngine struct {
 	searchCalls map[*ssa.Function][]*ssa.Call
 	prefixTests map[*ssa.Function]int // terminator tests made through a HasPrefix helper at offset 0, per function
 	clsSets     map[*ssa.Function]*bset
-	paramStart  bool                        // C14/R14: what is known about the first two bytes where Kind = <param> is stored
-	posProbe    map[*ssa.Call]bool          // summary run over File.Position: is the argument of this ResolvePos call proved <= len(Buffer)?
-	scanFns     map[string]bool             // functions whose loops are byte scans: checked for unit steps and exhaustive exits
-	progress    bool                        // C03/R7: every loop iteration advances the cursor or a counter
-	tiling      bool                        // C13/R4: track the Space/Raw/Pos/End stores of tokens and comments
-	tokProg     bool                        // C13/R6: every return of the token readers has consumed at least one byte (or is at <eof>)
-	numFollow   bool                        // C14/R11: what consumeNumber rejects / accepts right behind a number
-	cutEdges    map[[2]*ssa.BasicBlock]bool // trace partition: CFG edges that are not taken in this run
-	hexDigits   bool                        // C14/R12: in the hex partition of consumeNumber every skipN has seen a digit behind "0x"
-	identPart   bset                        // the bytes char.IsIdentPart accepts (C14/R6)
-	bytes       bool                        // C03/R9: track what is known about single bytes of the buffer
-	inlineAlso  map[string]bool             // with shallow: cursor-moving methods that are followed all the same
-	foldEq      bool                        // C16/R3: char.EqualFold returns true only for equal lengths, after the last index
-	split       bool                        // C12/R5: SplitRawStatements over the contract of Lexer.NextToken (token fields as atoms)
-	tokLen      bool                        // C06/R3: track Token.Kind / Token.AsString stores of the token reader; <param> spans '@' + its name
-	shallow     bool                        // calls to lexer methods only move the cursor forward (not followed)
-	shallowLeaf bool                        // ... except loop-free leaf helpers (skip, skipN, peek*), which are still inlined
-	astScope    bool                        // C04/R3: the consumer functions of package ast (read-only by C18/R7: loads of one field path are one value)
+	paramStart  bool                                 // C14/R14: what is known about the first two bytes where Kind = <param> is stored
+	posProbe    map[*ssa.Call]bool                   // summary run over File.Position: is the argument of this ResolvePos call proved <= len(Buffer)?
+	scanFns     map[string]bool                      // functions whose loops are byte scans: checked for unit steps and exhaustive exits
+	progress    bool                                 // C03/R7: every loop iteration advances the cursor or a counter
+	tiling      bool                                 // C13/R4: track the Space/Raw/Pos/End stores of tokens and comments
+	tokProg     bool                                 // C13/R6: every return of the token readers has consumed at least one byte (or is at <eof>)
+	numFollow   bool                                 // C14/R11: what consumeNumber rejects / accepts right behind a number
+	cutEdges    map[[2]*ssa.BasicBlock]bool          // trace partition: CFG edges that are not taken in this run
+	hexDigits   bool                                 // C14/R12: in the hex partition of consumeNumber every skipN has seen a digit behind "0x"
+	identPart   bset                                 // the bytes char.IsIdentPart accepts (C14/R6)
+	bytes       bool                                 // C03/R9: track what is known about single bytes of the buffer
+	openerProbe func(call *ssa.Call, cf commentForm) // C14/R4: what is known about the bytes at the cursor where skipComment hands over to a scanner
+	openerRoot  *ssa.Function
+	edgeIns     map[*ssa.BasicBlock][]*lstate // openerProbe: the states on the incoming edges of the blocks of openerRoot (a disjunction `a || b` in front of a call is one opener per edge)
+	inlineAlso  map[string]bool               // with shallow: cursor-moving methods that are followed all the same
+	foldEq      bool                          // C16/R3: char.EqualFold returns true only for equal lengths, after the last index
+	split       bool                          // C12/R5: SplitRawStatements over the contract of Lexer.NextToken (token fields as atoms)
+	tokLen      bool                          // C06/R3: track Token.Kind / Token.AsString stores of the token reader; <param> spans '@' + its name
+	shallow     bool                          // calls to lexer methods only move the cursor forward (not followed)
+	shallowLeaf bool                          // ... except loop-free leaf helpers (skip, skipN, peek*), which are still inlined
+	astScope    bool                          // C04/R3: the consumer functions of package ast (read-only by C18/R7: loads of one field path are one value)
 	rootPre     []string
 	owner       map[atomID]ssa.Value
 	live        map[*ssa.Function]map[*ssa.BasicBlock]map[ssa.Value]bool
@@ -475,8 +478,26 @@ func (e *lbEngine) site(instr ssa.Instruction) (fn *ssa.Function, text, where st
 	if text == "" {
 		text = strings.TrimSpace(instr.String())
 		if st, ok := instr.(*ssa.Store); ok {
-			_ = st
+			// told apart by their order in the function (`l.pos++` in a for clause and `l.pos = len(l.Buffer)` behind the
+			// loop are two obligations)
+			n := 0
+		count:
+			for _, b := range st.Parent().Blocks {
+				for _, in2 := range b.Instrs {
+					if s2, ok := in2.(*ssa.Store); ok {
+						if fa, ok := s2.Addr.(*ssa.FieldAddr); ok && fieldAddrName(fa) == "pos" {
+							n++
+						}
+						if s2 == st {
+							break count
+						}
+					}
+				}
+			}
 			text = "assignment to Lexer.pos"
+			if n > 1 {
+				text = fmt.Sprintf("assignment to Lexer.pos #%d", n)
+			}
 		}
 	} else if n := e.textSeq[pos]; n > 1 {
 		text = fmt.Sprintf("%s #%d", text, n)
@@ -631,6 +652,12 @@ func (e *lbEngine) run(in *lbInst, entry *lstate) []lbRet {
 			}
 		}
 		res := joinLin(e.at, ins, zeros, restrict)
+		if e.openerProbe != nil && fn == e.openerRoot {
+			if e.edgeIns == nil {
+				e.edgeIns = map[*ssa.BasicBlock][]*lstate{}
+			}
+			e.edgeIns[b] = append([]*lstate{}, ins...)
+		}
 		if !hasBack {
 			res = res.prune(e.at) // only loop heads keep redundant facts (they may be what survives the next iteration)
 		}
@@ -1202,6 +1229,11 @@ func (e *lbEngine) boolPhiGuards(in *lbInst, b *ssa.BasicBlock, ins []*lstate, r
 	return res
 }
 
+func isRuneType(t types.Type) bool {
+	b, ok := t.Underlying().(*types.Basic)
+	return ok && b.Kind() == types.Int32
+}
+
 func isByteType(t types.Type) bool {
 	b, ok := t.Underlying().(*types.Basic)
 	return ok && b.Kind() == types.Uint8
@@ -1376,6 +1408,17 @@ func (e *lbEngine) refine(in *lbInst, st *lstate, cond ssa.Value, pol bool) *lst
 		switch {
 		case isIntType(x.X.Type()):
 			if !isCountType(x.X.Type()) {
+				if e.bytes && isRuneType(x.X.Type()) && (op == token.EQL || op == token.NEQ) {
+					// a rune decoded from the input (registered at its DecodeRuneInString) against an ASCII constant
+					for _, side := range [][2]ssa.Value{{x.X, x.Y}, {x.Y, x.X}} {
+						if k, ok := constInt(side[1]); ok && k >= 0 && k < 0x80 {
+							if ns, done := e.refineByte(in, st, side[0], side[1], op == token.EQL); done {
+								st = ns // (what the comparison says about the length of the decoded text follows below)
+								break
+							}
+						}
+					}
+				}
 				if e.bytes && isByteType(x.X.Type()) && (op == token.EQL || op == token.NEQ) {
 					if ns, done := e.refineByte(in, st, x.X, x.Y, op == token.EQL); done {
 						return ns
@@ -1787,6 +1830,94 @@ func (e *lbEngine) execBlock(in *lbInst, b *ssa.BasicBlock, st *lstate, rets *[]
 					}
 				}
 			}
+			if e.openerProbe != nil && e.record && in.fn == e.openerRoot && len(e.frames) <= 1 {
+				if callee := x.Call.StaticCallee(); callee != nil && callee.Signature.Recv() != nil && len(x.Call.Args) > 0 && e.aliasOf(in, x.Call.Args[0]) == "lexer" && e.movesCursor(callee) {
+					// the states to read: the one at the call, or — when the call opens its block, reached from the arms
+					// of a disjunction — each incoming edge on its own
+					states := []*lstate{st}
+					first := true
+					for _, pi := range b.Instrs {
+						if pi == ssa.Instruction(x) {
+							break
+						}
+						switch pi.(type) {
+						case *ssa.Call, *ssa.Store:
+							first = false
+						}
+					}
+					if os.Getenv("VERIF_OPENER_DEBUG") == "2" {
+						fmt.Printf("OPENER EDGES b%d: %d\n", b.Index, len(e.edgeIns[b]))
+						for _, s3 := range e.edgeIns[b] {
+							fmt.Printf("    %s\n", e.at.showState(s3))
+						}
+					}
+					if ins := e.edgeIns[b]; first && len(ins) > 1 {
+						states = nil
+						for _, s2 := range ins {
+							if s2 != nil {
+								states = append(states, s2)
+							}
+						}
+					} else if first && len(b.Preds) == 1 {
+						// `case a && b || c && d:` compiled to a boolean phi that is tested at once: one state per operand of
+						// the phi that can be true
+						p := b.Preds[0]
+						if iff, ok := p.Instrs[len(p.Instrs)-1].(*ssa.If); ok && p.Succs[0] == b && len(p.Instrs) == 2 {
+							if phi, ok := iff.Cond.(*ssa.Phi); ok && phi.Block() == p && len(e.edgeIns[p]) == len(phi.Edges) {
+								var alt []*lstate
+								for i, ed := range phi.Edges {
+									s2 := e.edgeIns[p][i]
+									if s2 == nil {
+										continue
+									}
+									if cb, isC := constBool(ed); isC {
+										if !cb {
+											continue
+										}
+									} else {
+										// on this edge what was known under the operand is known under the phi (boolPhiTransfer)
+										s2 = e.activate(s2, e.atom(phi), true)
+									}
+									if s2 != nil {
+										alt = append(alt, s2)
+									}
+								}
+								if len(alt) > 0 {
+									states = alt
+								}
+							}
+						}
+					}
+					for _, s2 := range states {
+						if os.Getenv("VERIF_OPENER_DEBUG") == "2" {
+							fmt.Printf("OPENER STATE b%d first=%v nstates=%d: %s\n", b.Index, first, len(states), e.at.showState(s2))
+						}
+						op := ""
+						for i := int64(0); i < 3; i++ {
+							set, known := e.byteSetAt(s2, linAtom(e.P).add(linConst(i)))
+							c, single := set.single()
+							if !known || !single {
+								break
+							}
+							op += string(rune(c))
+						}
+						cf := commentForm{opener: op}
+						sawStr, sawBool := false, false
+						for _, a := range x.Call.Args[1:] {
+							if sv, ok := constString(a); ok && !sawStr {
+								cf.term, sawStr = sv, true
+							}
+							if bv, ok := constBool(a); ok && !sawBool {
+								cf.mustEnd, sawBool = bv, true
+							}
+						}
+						if !sawStr {
+							cf.term = "\x00?" // the scanner is not told its terminator by the call
+						}
+						e.openerProbe(x, cf)
+					}
+				}
+			}
 			st = e.execCall(in, st, x)
 			if searchLo != 0 && st != nil {
 				// ghosts (no owner: they survive the result's last use): where the search started and what it answered
@@ -2022,6 +2153,17 @@ func (e *lbEngine) execCall(in *lbInst, st *lstate, call *ssa.Call) *lstate {
 		if st.proves(e.at, lfact{l: n.add(linConst(-1))}) {
 			st = st.ge(size, linConst(1))
 		}
+		if e.bytes && full != "unicode/utf8.DecodeLastRuneInString" && call.Referrers() != nil {
+			// the rune decoded at Buffer[lo:]: comparing it with an ASCII constant is a statement about the byte at lo
+			if lo, _, isBuf := e.bufSlice(in, com.Args[0]); isBuf {
+				for _, u := range *call.Referrers() {
+					if ex, ok := u.(*ssa.Extract); ok && ex.Index == 0 {
+						a := e.atom(ex)
+						st = st.eliminate(e.at, map[atomID]bool{a: true}).withVal(a, lo)
+					}
+				}
+			}
+		}
 		return st
 	case "unicode/utf8.EncodeRune":
 		r := linAtom(e.atom(call))
@@ -2041,7 +2183,21 @@ func (e *lbEngine) execCall(in *lbInst, st *lstate, call *ssa.Call) *lstate {
 		if len(com.Args) == 2 {
 			// true only when the second operand fits into the first
 			g := e.atom(call)
-			return st.with(lfact{g: g, gp: true, l: e.lenLin(in, com.Args[0]).sub(e.lenLin(in, com.Args[1]))})
+			st = st.with(lfact{g: g, gp: true, l: e.lenLin(in, com.Args[0]).sub(e.lenLin(in, com.Args[1]))})
+			if e.bytes && (full == "strings.HasPrefix" || full == "bytes.HasPrefix") {
+				// a constant prefix of the input at lo: the bytes at lo, lo+1, … are its bytes
+				if sv, ok := constString(com.Args[1]); ok && len(sv) > 0 && len(sv) <= 4 {
+					if lo, _, isBuf := e.bufSlice(in, com.Args[0]); isBuf {
+						for i := 0; i < len(sv); i++ {
+							st = st.withGuardedByte(g, true, lo.add(linConst(int64(i))), bsetOf(sv[i]))
+						}
+						if len(sv) == 1 {
+							st = st.withGuardedByte(g, false, lo, bsetOf(sv[0]).complement())
+						}
+					}
+				}
+			}
+			return st
 		}
 	}
 	if _, ok := lbSearchFns[full]; ok && len(com.Args) == 2 {
